@@ -48,6 +48,7 @@ ESSENTIAL = [
     "reread-after-change:area_um", "reread-after-change:time",
     "reread-after-change:volume", "reread-after-change:ml_class",
     "reread-after-change:plugin", "reread-after-removal", "child-read",
+    "reread-after-change:crosstalk-of-unrecorded-channel",
     "fmt:hdf5", "fmt:dict", "scenario:A", "scenario:B", "scenario:C",
     "scenario:B-other+T", "emodulus-finite-values", "op:temp", "op:ctemp",
     "op:plug", "op:unplug", "op:features", "direct:emodulus", "direct:ctc",
@@ -85,14 +86,14 @@ KEYS = {
     "um": ("user", "m", [1, 2, 4]),
 }
 for _c in CT:
-    KEYS[_c] = ("calculation", f"crosstalk fl{_c[2:]}", [0.0, 0.1, 0.25])
+    KEYS[_c] = ("calculation", f"crosstalk fl{_c[2:]}", [0.1, 0.25, 0.05, 0.0])
 KNOWN_MEDIA = {"CellCarrier", "water", "CellCarrier B", "0.49% MC-PBS"}
 EMOD_KEYS = ["lut", "med", "T", "visc", "vm", "px", "flow", "width", "region"]
 
 SCALAR_IN = ["area_cvx", "area_msd", "size_x", "size_y", "circ", "frame", "pos_x",
              "pos_y", "bg_off", "fl1_max", "fl2_max", "fl3_max", "temp"]
 IMAGE_IN = ["mask", "image", "image_bg"]
-DROPPABLE = ["temp", "temp", "fl3_max", "fl3_max", "fl2_max", "fl1_max", "bg_off",
+DROPPABLE = ["temp", "temp", "bg_off",
              "image_bg", "area_msd", "size_y", "frame", "pos_x", "mask", "image",
              "area_cvx", "circ"]
 TEMPS = ["tmp_a", "ml_score_aaa", "ml_score_bbb", "ml_score_ccc"]
@@ -212,6 +213,9 @@ def st_spec(draw):
         else:
             cfg[k] = _vidx(draw, k)
     absent = draw(st.lists(st.sampled_from(DROPPABLE), max_size=2, unique=True))
+    # two-channel measurements are common: one fluorescence channel not recorded
+    absent += draw(st.sampled_from([[], [], [], ["fl3_max"], ["fl3_max"], ["fl2_max"],
+                                    ["fl1_max"], ["fl2_max", "fl3_max"]]))
     if scen == "A" and "temp" in absent and draw(st.booleans()):
         absent.remove("temp")
     return {
@@ -803,6 +807,8 @@ class Sim:
             rec.cls("reread-after-change:" + grp)
             if removed:
                 rec.cls("reread-after-removal")
+            if "crosstalk-with-missing-channel" in hist:
+                rec.cls("reread-after-change:crosstalk-of-unrecorded-channel")
         if out_f[0] == "ok":
             rec.cls("read-available:" + f)
             if f == "emodulus" and np.isfinite(out_f[1]).any():
